@@ -313,7 +313,7 @@ def stepIndicator (d : Drv) (line : String) : Drv × Option String :=
         -- C12: ranges and orderings, on the implementation's own values, no exemption
         let rbad : Option String :=
           if !i.cmpRange then none
-          else if finite then rangeCheck ctx i.name i.kinds k rv
+          else if finite then rangeCheck ctx i.name i.kinds k rv i.srcs
           else
             -- a non-finite value in a slot with a documented interval is outside that interval
             (rangeSpec i.name i.kinds).intervals.findSome? fun (j, lo, hi) =>
